@@ -828,6 +828,7 @@ class MProcess(QOperation):
             mode_proj_order=self.mode_proj_order,
             eps_proj_physical=self.eps_proj_physical,
             eps_truncate_imaginary_part=self.eps_truncate_imaginary_part,
+            eps_zero=self.eps_zero,
         )
         return new_qoperation
 
